@@ -112,12 +112,19 @@ impl Sub for Freshness {
         }
       }
     }
+    if n >= 1000 {
+      let (lo, hi) = (ones.iter().min().copied().unwrap_or(0), ones.iter().max().copied().unwrap_or(0));
+      let first: Vec<String> = nonces.iter().take(2).map(hex::encode).collect();
+      SAMPLES.lock().unwrap().push(json!({"history": format!("{}:{}:{}", p.label(), c.layer.label(), mode), "builds": n, "distinct_nonces": nonces.len(),
+        "ones_per_bit_position_min_max": [lo, hi], "two_of_the_nonces": first}));
+    }
     BUILDS.fetch_add(n as u64, std::sync::atomic::Ordering::Relaxed);
     DISTINCT.fetch_add(nonces.len() as u64, std::sync::atomic::Ordering::Relaxed);
     Verdict::Pass
   }
 }
 
+static SAMPLES: std::sync::Mutex<Vec<serde_json::Value>> = std::sync::Mutex::new(vec![]);
 static BUILDS: std::sync::atomic::AtomicU64 = std::sync::atomic::AtomicU64::new(0);
 static DISTINCT: std::sync::atomic::AtomicU64 = std::sync::atomic::AtomicU64::new(0);
 
@@ -143,6 +150,9 @@ pub fn run(ctx: &Ctx) -> EvidenceMeta {
   let mut rep = SubReport { name: "C10/summary".into(), ..Default::default() };
   rep.extra.insert("builds_total".into(), json!(builds));
   rep.extra.insert("distinct_nonces_total".into(), json!(distinct));
+  let mut samples = SAMPLES.lock().unwrap().clone();
+  samples.sort_by_key(|v| v["history"].as_str().unwrap_or("").to_string());
+  rep.extra.insert("history_summaries".into(), serde_json::Value::Array(samples));
   ctx.push_report(rep);
   EvidenceMeta {
     rule: format!("24 histories = 4 local versions x {{GenericBuilder, PasetoBuilder}} x {{identical claims with a fresh builder per build, varying claims, ONE builder built repeatedly}}, each of N = {n} builds under one key with identical footer and assertion. \
